@@ -993,6 +993,156 @@ func genCapacity(count int, rng *rand.Rand) []*capacityCase {
 	return out
 }
 
+// ---------------------------------------------------------------- per-job contexts (C08, C01)
+
+// ownCtxCase: ContinueOnError with a context per job (the public scheduler API takes one per Enqueue):
+// some jobs are given an already-cancelled context, some cancel their own context and then fail, some
+// fail plainly. Wait's context stays live. Expected, whatever the schedule: a job with a cancelled
+// context is not run and contributes its context's error; a job below a failed or skipped job is not
+// run and contributes nothing; every other job runs exactly once; failing ones contribute their error.
+type ownCtxCase struct {
+	Idx  int
+	N    int
+	Deps [][]int
+	Kind []string // ok | fail | cancelfail | pre (context cancelled before Enqueue)
+}
+
+func genOwnCtx(count int, rng *rand.Rand) []*ownCtxCase {
+	var out []*ownCtxCase
+	for i := 0; i < count; i++ {
+		n := 2 + rng.Intn(7)
+		c := &ownCtxCase{Idx: 100000 + i, N: []int{1, 2, 3, 4}[rng.Intn(4)]}
+		for j := 0; j < n; j++ {
+			var d []int
+			if j > 0 && rng.Intn(100) < 45 {
+				for k := 0; k < 1+rng.Intn(2); k++ {
+					d = append(d, rng.Intn(j))
+				}
+			}
+			c.Deps = append(c.Deps, d)
+			kind := "ok"
+			switch r := rng.Intn(100); {
+			case r < 18:
+				kind = "pre"
+			case r < 30:
+				kind = "fail"
+			case r < 42:
+				kind = "cancelfail"
+			}
+			c.Kind = append(c.Kind, kind)
+		}
+		out = append(out, c)
+	}
+	return out
+}
+
+func runOwnCtx(c *ownCtxCase) (fails []string, info string) {
+	n := len(c.Deps)
+	sched := (scheduler.Config{Concurrency: c.N, ContinueOnError: true}).New()
+	bg := context.Background()
+	runs := make([]int32, n)
+	hs := make([]*scheduler.ScheduledJob, n)
+	release := make(chan struct{})
+	for j := 0; j < n; j++ {
+		j := j
+		ctx, cancel := context.WithCancel(bg)
+		if c.Kind[j] == "pre" {
+			cancel()
+		}
+		var deps []*scheduler.ScheduledJob
+		for _, d := range c.Deps[j] {
+			deps = append(deps, hs[d])
+		}
+		hs[j] = sched.Enqueue(ctx, scheduler.Job{Dependencies: deps, Run: func(context.Context) error {
+			atomic.AddInt32(&runs[j], 1)
+			if j == 0 {
+				// keep work outstanding while the first results are processed
+				select {
+				case <-release:
+				case <-time.After(20 * time.Millisecond):
+				}
+			}
+			switch c.Kind[j] {
+			case "fail":
+				cancel()
+				return &herr{id: j}
+			case "cancelfail":
+				cancel()
+				return &herr{id: j}
+			}
+			cancel()
+			return nil
+		}})
+	}
+	done := make(chan error, 1)
+	go func() { done <- sched.Wait(bg) }()
+	var err error
+	select {
+	case err = <-done:
+	case <-time.After(10 * time.Second):
+		atomic.AddInt32(&hangs, 1)
+		close(release)
+		return []string{fmt.Sprintf("per-job contexts: Wait did not return within 10s (kinds %v deps %v N=%d)", c.Kind, c.Deps, c.N)}, "timeout"
+	}
+	close(release)
+	// expected statuses by evaluation in enqueue order
+	status := make([]string, n) // run-ok run-fail ctx invalid
+	wantIDs := map[int]int{}
+	wantCtx := 0
+	for j := 0; j < n; j++ {
+		switch {
+		case c.Kind[j] == "pre":
+			status[j] = "ctx"
+			wantCtx++
+		default:
+			bad := false
+			for _, d := range c.Deps[j] {
+				if status[d] != "run-ok" {
+					bad = true
+				}
+			}
+			if bad {
+				status[j] = "invalid"
+			} else if c.Kind[j] == "ok" {
+				status[j] = "run-ok"
+			} else {
+				status[j] = "run-fail"
+				wantIDs[j]++
+			}
+		}
+	}
+	for j := 0; j < n; j++ {
+		r := int(atomic.LoadInt32(&runs[j]))
+		want := 0
+		if strings.HasPrefix(status[j], "run") {
+			want = 1
+		}
+		if r != want {
+			fails = append(fails, fmt.Sprintf("job %d (%s, status %s) ran %d times, want %d", j, c.Kind[j], status[j], r, want))
+		}
+	}
+	gotIDs := map[int]int{}
+	gotCtx, other := 0, 0
+	for _, e := range multierr.Errors(err) {
+		var h *herr
+		switch {
+		case errors.As(e, &h):
+			gotIDs[h.id]++
+		case errors.Is(e, context.Canceled):
+			gotCtx++
+		default:
+			other++
+		}
+	}
+	if gotCtx != wantCtx || other != 0 || fmt.Sprint(gotIDs) != fmt.Sprint(wantIDs) {
+		fails = append(fails, fmt.Sprintf("error entries: job errors %v ctx %d other %d, want job errors %v ctx %d", gotIDs, gotCtx, other, wantIDs, wantCtx))
+	}
+	if len(fails) > 0 {
+		fails = append(fails, fmt.Sprintf("(kinds %v deps %v N=%d)", c.Kind, c.Deps, c.N))
+	}
+	return fails, fmt.Sprintf("ownctx N=%d jobs=%d pre=%d", c.N, n, wantCtx)
+}
+
 // ---------------------------------------------------------------- main
 
 func parseScenario(lines []string) (*scenario, error) {
@@ -1156,6 +1306,31 @@ func main() {
 	// capacity cases (no trace: their jobs use per-job contexts, which the single-context model does not cover)
 	if *replay == "" {
 		baseG := countSchedGoroutines()
+		ownHangs := 0
+		orng := rand.New(rand.NewSource(*seed*7919 + 13))
+		for _, oc := range genOwnCtx(*capacity, orng) {
+			if ownHangs >= 3 {
+				stats["skipped-after-hangs"]++
+				continue
+			}
+			fails, info := runOwnCtx(oc)
+			if info == "timeout" {
+				ownHangs++
+			}
+			fmt.Fprintf(w, "cap %d %s capseed=%d capcount=%d\n", oc.Idx, info, *seed, *capacity)
+			if len(fails) == 0 {
+				fmt.Fprintf(w, "O C08 ok\n")
+			} else {
+				fmt.Fprintf(w, "O C08 FAIL %s\n", strings.Join(fails, " ;; "))
+				stats["fail.C08"]++
+			}
+			if l, d := waitQuiescent(baseG); l > 0 {
+				fmt.Fprintf(w, "O C06 FAIL per-job-context case %d: %d scheduler goroutine(s) never terminate: %s\n", oc.Idx, l, strings.ReplaceAll(d, "\n", " | "))
+				stats["fail.C06"]++
+				baseG = countSchedGoroutines()
+			}
+			stats["ownctx"]++
+		}
 		for _, cc := range genCapacity(*capacity, rng) {
 			if atomic.LoadInt32(&hangs) >= 3 || atomic.LoadInt32(&leakBatches) >= 2 {
 				stats["skipped-after-hangs"]++
